@@ -377,9 +377,15 @@ def r19_4(chk, w):
                node=km[0].node, fingerprint="dimension", expected="distance^2 >= (threshold * size)^2",
                found=f"{str(tside)[:80]}: length degree {lt}  vs  {str(dside)[:40]}: length degree {ld}")
         pt = deg_thr.of(tside)
+        # power of the pairwise distance on the other side (the squared-distance matrix counts 2, whatever it is divided by)
+        deg_d = Deg({pts: 0, thr: 0})
+        for e0 in pv.events:
+            if e0.kind == "assign" and e0.name == "dist_sq" and e0.value is not None:
+                deg_d.base[e0.value.key()] = 2
+        pd = deg_d.of(dside)
         chk.ob("R19.4", W, "prune_degenerate_points", "the threshold enters to the same power as the distance it bounds (squared distance with squared threshold)",
-               pt is not None and pt == ld, node=km[0].node, fingerprint="threshold-power", expected=f"threshold^{ld}",
-               found=f"threshold^{pt} against a distance to the power {ld}")
+               pt is not None and pd is not None and pt == pd, node=km[0].node, fingerprint="threshold-power", expected=f"threshold^{pd}",
+               found=f"threshold^{pt} against a distance to the power {pd}")
     chk.need(n >= 1, "prune_degenerate_points: no comparison involving the threshold")
     # (c) constructor: energies keep a dtype of their own
     q = "WulffConstruction.__init__"
